@@ -1,6 +1,7 @@
 import Retro.Drv.Common
 import Retro.Drv.F32Native
 import Retro.Model.Tex
+import Retro.Model.FloatFallback
 import Retro.Spec.Tex
 
 /-!
@@ -113,9 +114,19 @@ def specAbs0 (smp : String) (dw dh : Nat) (u v : UInt32) (impl : String) : Optio
             if smp == "rep" then (if Spec.Tex.below2p31 q then some (Spec.Tex.repeatIdx w q) else none)
             else if smp == "cl" then some (Spec.Tex.clampIdx w q)
             else some (Spec.Tex.onceIdx q)
-        let badU := match want dw qu with | some e => (e : Int) != iu | none => false
-        let badV := match want dh qv with | some e => (e : Int) != iv | none => false
-        if badU || badV then
+        -- Beyond 2^24 texels an f32 coordinate no longer resolves single texels (ulp ≥ 2) and the
+        -- clamp bound `tex.w - 1.0` is itself rounded: an index within one coordinate-ulp of the
+        -- exact one is inside the representational ambiguity (reported as AMB by the caller).
+        let tol (w : Nat) : Int := if smp == "cl" && w > 16777216 then ((pow2 (Nat.log2 w - 23) : Nat) : Int) else 0
+        let offBy (w : Nat) (q : Option Rat) (i : Int) : Int :=
+          match want w q with | some e => if (e : Int) ≥ i then (e : Int) - i else i - (e : Int) | none => 0
+        let du := offBy dw qu iu
+        let dv := offBy dh qv iv
+        let badU := du > tol dw
+        let badV := dv > tol dh
+        if !(badU || badV) && (du > 0 || dv > 0) then
+          some ("AMB", s!"texel ({iu},{iv}) within coordinate resolution of the exact one on a {dw}x{dh} texture")
+        else if badU || badV then
           some (name ++ "-wrong-texel",
             s!"texel ({iu},{iv}), expected ({(want dw qu).map toString |>.getD "*"},{(want dh qv).map toString |>.getD "*"})")
         else none
@@ -126,8 +137,17 @@ def specAbs (smp : String) (dw dh : Nat) (u v : UInt32) (impl : String) : Option
   match specAbs0 smp dw dh u v impl with
   | none => none
   | some (k, m) =>
-    if smp == "cl" && (dw > 16777216 || dh > 16777216) then some ("clamp-wide-texture", k ++ ": " ++ m)
+    if k == "AMB" then some (k, m)
+    else if smp == "cl" && (dw > 16777216 || dh > 16777216) then some ("clamp-wide-texture", k ++ ": " ++ m)
     else some (k, m)
+
+/-- Fold an oracle result into a verdict (`AMB` = inside the coordinate-resolution band). -/
+def applySpec (vd : Verdict) (r : Option (String × String)) : Verdict :=
+  match r with
+  | none => vd
+  | some (k, msg) =>
+    if k == "AMB" then { vd with amb := true, tags := "wide-coordinate-resolution" :: vd.tags }
+    else vd.withSpec true k msg
 
 def fnvFold (h : UInt64) : Outcome (Nat × Nat) → UInt64
   | .ok (u, v) => fnvStep (fnvStep h (UInt32.ofNat u)) (UInt32.ofNat v)
@@ -166,9 +186,7 @@ def handle (case impl : List String) : Verdict :=
         if dw == 0 || dh == 0 then Verdict.mkAmb tags else
         let vd := Verdict.ok tags
         let vd := vd.withDiff (implStr it != outStr m) s!"model {outStr m}"
-        match specAbs smp dw dh ub vb it with
-        | some (k, msg) => vd.withSpec true k msg
-        | none => vd
+        applySpec vd (specAbs smp dw dh ub vb it)
     | _, _, _, _ => bad "abs"
   | ["rel", smp, kind, dw, dh, u, v] =>
     match dw.toNat?, dh.toNat?, parseF32Bits? u, parseF32Bits? v with
@@ -187,11 +205,33 @@ def handle (case impl : List String) : Verdict :=
         let vd := vd.withDiff (implStr a != outStr ma) s!"scaled absolute: model {outStr ma}"
         -- property: relative entry point = absolute one at the coordinate scaled by the texture size
         let vd := vd.withSpec (implStr r != implStr a) "relative-not-scaled-absolute" s!"sample gave {r}, sample_abs of the scaled coordinate gave {a}"
-        match specAbs smp dw dh su sv r with
-        | some (k, msg) => vd.withSpec true k msg
-        | none => vd
+        applySpec vd (specAbs smp dw dh su sv r)
       | _, _ => bad "sampler"
     | _, _, _, _ => bad "rel"
+  | ["sib", be, smp, kdw, kdh, u, v] =>
+    -- sample_abs in another feature configuration: same model, that back end's `floor`
+    match kdw.toNat?, kdh.toNat?, parseF32Bits? u, parseF32Bits? v with
+    | some dw, some dh, some ub, some vb =>
+      let t := Texture.ofDims dw dh
+      let floorF : UInt32 → UInt32 :=
+        if be == "fallback" then FloatFallback.floor else if be == "mm" then FloatFallback.mmFloor else F32.floor
+      let m : Option (Outcome (Nat × Nat)) :=
+        if smp == "rep" then
+          some (match RepeatPot.new t with
+            | .panic msg => .panic msg
+            | .ok s => repeatSampleAbsF floorF s t ub vb)
+        else if smp == "cl" then some (clampSampleAbsF floorF t ub vb)
+        else none
+      match m with
+      | none => bad "sampler"
+      | some m =>
+        let it := impl.getD 0 ""
+        let vd := Verdict.ok ["sib", be, smp, "u-" ++ coordTag ub, "v-" ++ coordTag vb]
+        let vd := vd.withDiff (implStr it != outStr m) s!"model {outStr m}"
+        match specAbs smp dw dh ub vb it with
+        | some (k, msg) => if k == "AMB" then applySpec vd (some (k, msg)) else vd.withSpec true (be ++ "-" ++ k) msg
+        | none => vd
+    | _, _, _, _ => bad "sib"
   | ["wide", smp, dw, dh, u, v] =>
     -- u8 texels holding (x + 7y) % 251
     match dw.toNat?, dh.toNat?, parseF32Bits? u, parseF32Bits? v with
@@ -208,16 +248,21 @@ def handle (case impl : List String) : Verdict :=
         let vd := vd.withDiff (implStr it != want) s!"model {want}"
         -- spec: no panic (the texel value only identifies the column modulo 251, so in-bounds and
         -- right-texel are judged through the value the spec index would hold)
+        -- the texel value identifies the column only modulo 251: look for the candidate index nearest
+        -- to the expected one (at most 8 texels below it; 0 or the far edge for NaN / ±∞) that holds
+        -- the value read
+        let candAxis (w : Nat) (q : Option Rat) : List Nat :=
+          let down (e : Nat) : List Nat := (List.range 9).filterMap fun a => if a ≤ e then some (e - a) else none
+          match q with
+          | some q =>
+            down (if smp == "rep" then Spec.Tex.repeatIdx w q else if smp == "cl" then Spec.Tex.clampIdx w q else Spec.Tex.onceIdx q)
+          | none => 0 :: down (w - 1)
         let fake := if it.startsWith "panic:" then it else
-          match toRat? ub, toRat? vb with
-          | some qu, some qv =>
-            let eu := if smp == "rep" then Spec.Tex.repeatIdx dw qu else if smp == "cl" then Spec.Tex.clampIdx dw qu else Spec.Tex.onceIdx qu
-            let ev := if smp == "rep" then Spec.Tex.repeatIdx dh qv else if smp == "cl" then Spec.Tex.clampIdx dh qv else Spec.Tex.onceIdx qv
-            if toString ((eu + 7 * ev) % 251) == it then s!"{eu},{ev}" else s!"{dw},{dh}"
-          | _, _ => "0,0"
-        match specAbs smp dw dh ub vb fake with
-        | some (k, msg) => vd.withSpec true k msg
-        | none => vd
+          let cands := (candAxis dw (toRat? ub)).flatMap fun a => (candAxis dh (toRat? vb)).map fun b => (a, b)
+          match cands.find? (fun (a, b) => toString ((a + 7 * b) % 251) == it) with
+          | some (a, b) => s!"{a},{b}"
+          | none => s!"{dw},{dh}"
+        applySpec vd (specAbs smp dw dh ub vb fake)
     | _, _, _, _ => bad "wide"
   | ["dig", smp, dw, dh, v, start, count] =>
     match dw.toNat?, dh.toNat?, parseF32Bits? v, parseHex? start, count.toNat? with
